@@ -385,6 +385,50 @@ func c08Limits(c *Ctx) {
 			fx.Close()
 		}
 	}
+	c08HugeLimits(c)
+}
+
+// c08HugeLimits: configured limits are ints; on 64-bit platforms they may pass 2^32 (the width of a
+// gRPC frame length). A small message is then within the limit on every transport.
+func c08HugeLimits(c *Ctx) {
+	for _, lim := range []int{1 << 32, 1<<32 + 16, 5 << 30, 1 << 40} {
+		for _, side := range []string{"receive", "send"} {
+			opt := larking.MaxReceiveMessageSizeOption(lim)
+			if side == "send" {
+				opt = larking.MaxSendMessageSizeOption(lim)
+			}
+			sfx, err := newStreamFx(opt)
+			if err != nil {
+				c.Note("c08 huge fixture: " + err.Error())
+				continue
+			}
+			d := make([]byte, 100)
+			c.Rng.Read(d)
+			enc, _ := proto.Marshal(reqWithData(sfx.fx, d))
+			for _, tr := range []string{"application/grpc+proto", "application/grpc-web+proto"} {
+				sfx.reset([][]byte{d})
+				path := "/verif.v1.Svc/Up"
+				if side == "send" {
+					path = "/verif.v1.Svc/Unary"
+				}
+				rec, pn := sfx.serveStream("POST", path, map[string]string{"Content-Type": tr}, grpcFrame(0, enc), nil, false, tr == "application/grpc+proto")
+				in := fmt.Sprintf("%s limit=%d (>= 2^32), %s, a 100-byte message", side, lim, tr)
+				c.Eval("huge-limit", in, true)
+				ok := pn == nil
+				if side == "receive" {
+					ok = ok && len(sfx.got) == 1 && bytes.Equal(sfx.got[0], d)
+				} else {
+					fr, _, _ := parseFrames(rec.Body.Bytes())
+					rm := sfx.fx.NewMsg("Reply")
+					ok = ok && len(fr) >= 1 && proto.Unmarshal(fr[0], rm) == nil && bytes.Equal(dataOf(rm), d)
+				}
+				if !ok {
+					c.SpecFail("huge-limit", in, fmt.Sprintf("panic=%v delivered=%d body=%x", pn, len(sfx.got), trunc(rec.Body.Bytes(), 40)), "delivered", "C08/huge-limit/"+side+"/within-limit-refused", "a small message is refused on size grounds when the configured limit is 2^32 or more")
+				}
+			}
+			sfx.fx.Close()
+		}
+	}
 }
 
 // c08ThroughServer: the limits are per MESSAGE also when the mux is served by the library's own
